@@ -1,4 +1,4 @@
-import FatVerif.Proofs.SlotTreeImg7
+import FatVerif.Proofs.SlotTreeImg15
 import FatVerif.Props.C01tree
 /-!
 # C01, read-only half END TO END at byte level: `open_dir`, `open_file`, listing on a device image
@@ -380,7 +380,7 @@ theorem dirs_of_root4 (cur : List String) (s : List (List Nat)) (c : List (LfnEn
 theorem shiftE_zero (e : LfnEntry) : shiftE 0 e = e := rfl
 
 theorem layout : Layout dev :=
-  ⟨by decide, wf, rfl, rfl, by decide, by decide, by decide⟩
+  ⟨by decide, wf, rfl, rfl, by decide, by decide, by decide, by decide⟩
 
 /-- the first two root slots of the image are the model's root slot list … -/
 theorem ex_h1 : (rootDirSlots dev.fs dev.img).take 2 = rootSlots := by decide +kernel
@@ -505,9 +505,12 @@ cluster chain listing its dot entries and the node's entries.  It is RE-ESTABLIS
 * `history_refines_spec_img_partial`: any finite history of `open_dir`, `open_file`, listing and such `create_file`
   calls through the root handle, the hypotheses holding at each step: the byte-level outcomes are the slot tree's,
   the specification's checker accepts them in turn, and the final image holds a slot tree whose abstraction is the
-  specification's final tree.  MISSING calls: `create_dir`, `remove`, `rename` (single-directory simulations exist:
-  `WView.createDir_sim`, `remove_file_sim`, `rename_*_sim`; their composition needs, besides the above, the FAT-level
-  frame for freed / allocated clusters against the other directories' chains), handles other than the root's. -/
+  specification's final tree.  The alphabet also has `remove` of a file (`remove_file_img_partial`) and `create_dir`
+  (`create_dir_img_partial`), both with last directory = root; after `create_dir` the cluster map of the bundle is
+  extended (`ClAgree`), so the history theorem quantifies the map existentially.  MISSING calls: `rename`, `remove` of
+  a directory, any mutating call whose last directory lies below the root, handles other than the root's; the
+  FAT-level side conditions (`FreedApart`, `DirRes.apart`: freed / allocated clusters are on no directory chain)
+  are hypotheses. -/
 
 section mutating
 open SlotTreeImg
@@ -558,6 +561,116 @@ theorem create_file_refines_spec_img_partial (u : Char → List Char) {d : Dev} 
     obtain ⟨h, d', hr, hs, hW⟩ := o2 rows hout
     exact Or.inr ⟨h, d', _, hr, hs, hW, hwf', hacc.1, hacc.2⟩
 
+
+/-- **`remove` of a file at byte level, parent = the fixed root** (`SlotTreeImg.remove_file_root_img`): any path whose
+    directory components lead back to the root; `RemoveRes`: `Geo`, `InfoOk`, the named entry is a file, its cluster
+    chain (`cs = []` for a file without clusters, e.g. one made by `create_file` and never written) is a chain of
+    allocated clusters and is apart from every directory chain of the tree (`FreedApart` — to be discharged from
+    agent-fat's cross-link freedom).  The program ends as `removeS` says (`InvalidInput` for a dot name, `NotFound`, …);
+    after success the image holds the slot tree without the entry (`ImgTreeW` re-established across the release of
+    the chain — `ImgTreeW.of_freed` — and the deletion of the slot range).  `_partial`: last directory = root; the
+    entry is a file (an empty DIRECTORY needs `remove_dir_sim` and the release of its cluster, a non-empty one the
+    relation between `is_empty` on the image and `nodeEmpty`: not composed). -/
+theorem remove_file_img_partial {d : Dev} {up : Char → List Char} {t : Node} {cl : List String → Option Nat}
+    (W : ImgTreeW d up t cl) (hwf : TreeWf up t) (hup : DotSafe up) (env : Env)
+    (henv : env.upper = up) (cwd : List String) (st : DirStream) (hden : Den d up t cl cwd st) (path : String)
+    (fuel : Nat) (hfuel : path.toList.length < fuel)
+    (hlast : ∀ p, walkDirsS up t cwd (pathParts path).1 = .ok p → p = [])
+    (hres : ∀ slots ch, t = .dir slots ch → RemoveRes d up t cl slots ch (pathParts path).2) :
+    (∀ e, (removeS up t cwd path).out = .error e → FailsV (FatVerif.remove env fuel st path) d e) ∧
+    (∀ rows, (removeS up t cwd path).out = .ok rows →
+      ∃ d' : Dev, run (FatVerif.remove env fuel st path) d = (.ok (), d') ∧ VolStep d d' ∧
+        ImgTreeW d' up (removeS up t cwd path).tree cl) :=
+  remove_file_root_img W hwf hup env henv cwd st hden path fuel hfuel hlast hres
+
+/-- … composed with the refinement of the specification -/
+theorem remove_file_refines_spec_img_partial (u : Char → List Char) {d : Dev} {t : Node}
+    {cl : List String → Option Nat} (W : ImgTreeW d (upOf u) t cl) (hwf : TreeWf (upOf u) t)
+    (hup : DotSafe (upOf u)) (env : Env) (henv : env.upper = upOf u) (cwd : List String) (st : DirStream)
+    (hden : Den d (upOf u) t cl cwd st) (path : String) (fuel : Nat) (hfuel : path.toList.length < fuel)
+    (hlast : ∀ p, walkDirsS (upOf u) t cwd (pathParts path).1 = .ok p → p = [])
+    (hres : ∀ slots ch, t = .dir slots ch → RemoveRes d (upOf u) t cl slots ch (pathParts path).2)
+    (hok : OpOk (upOf u) t (.remove cwd path)) :
+    (∃ e, FailsV (FatVerif.remove env fuel st path) d e ∧
+      e ∈ (Spec.evalOp (cfgOf u) (abs t) (.remove cwd path)).errs) ∨
+    (∃ (d' : Dev) (t' : Node), run (FatVerif.remove env fuel st path) d = (.ok (), d') ∧ VolStep d d' ∧
+      ImgTreeW d' (upOf u) t' cl ∧ TreeWf (upOf u) t' ∧
+      (Spec.evalOp (cfgOf u) (abs t) (.remove cwd path)).errs = [] ∧
+      (Spec.evalOp (cfgOf u) (abs t) (.remove cwd path)).tree = abs t') := by
+  obtain ⟨o1, o2⟩ := remove_file_img_partial W hwf hup env henv cwd st hden path fuel hfuel hlast hres
+  obtain ⟨hwf', _, hacc⟩ := slot_step_refines u 70000 t hwf (.remove cwd path) [] hok
+  simp only [stepSlot] at hwf' hacc
+  unfold Accepts at hacc
+  cases hout : (removeS (upOf u) t cwd path).out with
+  | error e =>
+    rw [hout] at hacc
+    rcases hacc with h | h
+    · exact absurd (h ▸ hout) (removeS_no_hang _ _ _ _)
+    · exact Or.inl ⟨e, o1 e hout, h⟩
+  | ok rows =>
+    rw [hout] at hacc
+    obtain ⟨d', hr, hs, hW⟩ := o2 rows hout
+    exact Or.inr ⟨d', _, hr, hs, hW, hwf', hacc.1, hacc.2⟩
+
+/-- **`create_dir` at byte level, last directory = the fixed root** (`SlotTreeImg.create_dir_root_img`): any path whose
+    directory components lead back to the root.  `DirRes`: `Geo`, `InfoOk`, cluster size a multiple of 32, at least 64
+    and below 2^32, fewer slots per cluster than the scan fuel, the allocator finds the cluster `c` in the FAT of the
+    image (`allocFindV … = some c`; a full volume — `NotEnoughSpace` — is NOT covered), at most 65534 clusters
+    (FAT12/16), the entry fits into the root region, and `c` is on no directory chain of the tree (`apart`: follows from
+    `c` being free once the FAT is known to be well formed with allocated chain heads — not discharged here).
+    The program ends as `createS … true` says (the existing directory is opened; `InvalidInput` for an existing file or
+    a dot name; the error of `validate_long_name`; a file used as a directory on the way; `NotFound`); after success
+    the image holds the new slot tree — the root gained the entry `sfnWith alias (16 :: sfnStamp fs clock (some c))`,
+    its child is the empty directory, which the image holds in cluster `c` (`.`, `..`, zero slots; `SubImg.fresh`) —
+    under a cluster map `cl'` that agrees with `cl` on every directory of the old tree (`ClAgree`; `cl'` sends the
+    paths that name the new entry to `c`).  Every other directory is carried across the allocation and the writes
+    (`SubImg.of_dirStep`).  `_partial`: last directory = root. -/
+theorem create_dir_img_partial {d : Dev} {up : Char → List Char} {t : Node} {cl : List String → Option Nat}
+    (W : ImgTreeW d up t cl) (hwf : TreeWf up t) (hup : DotSafe up) (env : Env)
+    (henv : env.upper = up) (cwd : List String) (st : DirStream) (hden : Den d up t cl cwd st) (path : String)
+    (fuel : Nat) (hfuel : path.toList.length < fuel)
+    (hlast : ∀ p, walkDirsS up t cwd (pathParts path).1 = .ok p → p = []) (c : Nat)
+    (hres : ∀ slots ch, t = .dir slots ch → DirRes d up t cl slots (pathParts path).2 c)
+    (hnh : (createS up 70000 t cwd path true (sfnStamp d.fs d.clock (some c))).out ≠ .error .hang) :
+    (∀ e, (createS up 70000 t cwd path true (sfnStamp d.fs d.clock (some c))).out = .error e →
+      FailsV (createDir env fuel st path) d e) ∧
+    (∀ rows, (createS up 70000 t cwd path true (sfnStamp d.fs d.clock (some c))).out = .ok rows →
+      ∃ (s : DirStream) (d' : Dev), run (createDir env fuel st path) d = (.ok s, d') ∧ VolStep d d' ∧
+        ∃ cl', ImgTreeW d' up (createS up 70000 t cwd path true (sfnStamp d.fs d.clock (some c))).tree cl' ∧
+          ClAgree up t cl cl') :=
+  create_dir_root_img W hwf hup env henv cwd st hden path fuel hfuel hlast c hres hnh
+
+/-- … composed with the refinement of the specification -/
+theorem create_dir_refines_spec_img_partial (u : Char → List Char) {d : Dev} {t : Node}
+    {cl : List String → Option Nat} (W : ImgTreeW d (upOf u) t cl) (hwf : TreeWf (upOf u) t)
+    (hup : DotSafe (upOf u)) (env : Env) (henv : env.upper = upOf u) (cwd : List String) (st : DirStream)
+    (hden : Den d (upOf u) t cl cwd st) (path : String) (fuel : Nat) (hfuel : path.toList.length < fuel)
+    (hlast : ∀ p, walkDirsS (upOf u) t cwd (pathParts path).1 = .ok p → p = []) (c : Nat)
+    (hres : ∀ slots ch, t = .dir slots ch → DirRes d (upOf u) t cl slots (pathParts path).2 c)
+    (hnh : (createS (upOf u) 70000 t cwd path true (sfnStamp d.fs d.clock (some c))).out ≠ .error .hang)
+    (hok : OpOk (upOf u) t (.createDir cwd path)) :
+    (∃ e, FailsV (createDir env fuel st path) d e ∧
+      e ∈ (Spec.evalOp (cfgOf u) (abs t) (.createDir cwd path)).errs) ∨
+    (∃ (s : DirStream) (d' : Dev) (t' : Node) (cl' : List String → Option Nat),
+      run (createDir env fuel st path) d = (.ok s, d') ∧ VolStep d d' ∧
+      ImgTreeW d' (upOf u) t' cl' ∧ ClAgree (upOf u) t cl cl' ∧ TreeWf (upOf u) t' ∧
+      (Spec.evalOp (cfgOf u) (abs t) (.createDir cwd path)).errs = [] ∧
+      (Spec.evalOp (cfgOf u) (abs t) (.createDir cwd path)).tree = abs t') := by
+  obtain ⟨o1, o2⟩ := create_dir_img_partial W hwf hup env henv cwd st hden path fuel hfuel hlast c hres hnh
+  obtain ⟨hwf', _, hacc⟩ := slot_step_refines u 70000 t hwf (.createDir cwd path) (sfnStamp d.fs d.clock (some c)) hok
+  simp only [stepSlot] at hwf' hacc
+  unfold Accepts at hacc
+  cases hout : (createS (upOf u) 70000 t cwd path true (sfnStamp d.fs d.clock (some c))).out with
+  | error e =>
+    rw [hout] at hacc
+    rcases hacc with h | h
+    · exact absurd (h ▸ hout) hnh
+    · exact Or.inl ⟨e, o1 e hout, h⟩
+  | ok rows =>
+    rw [hout] at hacc
+    obtain ⟨s, d', hr, hs, cl', hW, hA⟩ := o2 rows hout
+    exact Or.inr ⟨s, d', _, cl', hr, hs, hW, hA, hwf', hacc.1, hacc.2⟩
+
 /-! ### histories through the root handle -/
 
 /-- a history of calls at byte level with the slot tree beside it: the observed outcomes, the final device and tree -/
@@ -569,35 +682,37 @@ inductive ByteRun (env : Env) (fuel : Nat) (up : Char → List Char) :
       ByteRun env fuel up d1 (modelStep up d t c).tree rest obs d' t' →
       ByteRun env fuel up d t (c :: rest) ((c.op, obsOf (modelStep up d t c)) :: obs) d' t'
 
-/-- the hypotheses hold at every step of the history, whatever device the step before ended in -/
-def HistOk (up : Char → List Char) (cl : List String → Option Nat) (fuel : Nat) : Dev → Node → List Call → Prop
-  | _, _, [] => True
-  | d, t, c :: rest => CallOk up d t fuel c ∧ OpOk up t c.op ∧
-      ∀ d1, VolStep d d1 → d1.clock = d.clock → ImgTreeW d1 up (modelStep up d t c).tree cl →
-        HistOk up cl fuel d1 (modelStep up d t c).tree rest
+/-- the hypotheses hold at every step of the history, whatever device the step before ended in and whatever cluster
+    map (agreeing with the one before on the directories that were there) the image holds the tree under -/
+def HistOk (up : Char → List Char) (fuel : Nat) : (List String → Option Nat) → Dev → Node → List Call → Prop
+  | _, _, _, [] => True
+  | cl, d, t, c :: rest => CallOk up cl d t fuel c ∧ OpOk up t c.op ∧
+      ∀ d1 cl1, VolStep d d1 → d1.clock = d.clock → ImgTreeW d1 up (modelStep up d t c).tree cl1 →
+        ClAgree up t cl cl1 → HistOk up fuel cl1 d1 (modelStep up d t c).tree rest
 
-/-- **C01 at byte level for histories (partial: calls `open_dir`, `open_file`, listing, `create_file` with last
-    directory = root, all through the root handle)**: from a device whose image holds a well-formed slot tree, every
-    call's byte-level program ends with the slot tree's outcome (`ByteRun`), the specification's checker accepts the
-    outcomes in turn and ends in the abstraction of the final slot tree, which the final image holds. -/
+/-- **C01 at byte level for histories (partial: calls `open_dir`, `open_file`, listing, `create_file`, `create_dir`
+    and `remove` of a file with last directory = root, all through the root handle)**: from a device whose image
+    holds a well-formed slot tree, every call's byte-level program ends with the slot tree's outcome (`ByteRun`), the
+    specification's checker accepts the outcomes in turn and ends in the abstraction of the final slot tree, which
+    the final image holds (under some cluster map). -/
 theorem history_refines_spec_img_partial (u : Char → List Char) (hup : DotSafe (upOf u)) (env : Env)
-    (henv : env.upper = upOf u) (cl : List String → Option Nat) (fuel : Nat) :
-    ∀ (calls : List Call) (d : Dev) (t : Node), ImgTreeW d (upOf u) t cl → TreeWf (upOf u) t → t.isDir = true →
-    HistOk (upOf u) cl fuel d t calls →
-    ∃ (obs : List (Spec.Op × Spec.Obs)) (d' : Dev) (t' : Node),
-      ByteRun env fuel (upOf u) d t calls obs d' t' ∧ ImgTreeW d' (upOf u) t' cl ∧ TreeWf (upOf u) t' ∧
+    (henv : env.upper = upOf u) (fuel : Nat) :
+    ∀ (calls : List Call) (cl : List String → Option Nat) (d : Dev) (t : Node), ImgTreeW d (upOf u) t cl →
+    TreeWf (upOf u) t → t.isDir = true → HistOk (upOf u) fuel cl d t calls →
+    ∃ (obs : List (Spec.Op × Spec.Obs)) (d' : Dev) (t' : Node) (cl' : List String → Option Nat),
+      ByteRun env fuel (upOf u) d t calls obs d' t' ∧ ImgTreeW d' (upOf u) t' cl' ∧ TreeWf (upOf u) t' ∧
       specRun (cfgOf u) (abs t) obs = .ok (abs t')
-  | [], d, t, W, hwf, _, _ => ⟨[], d, t, ByteRun.nil d t, W, hwf, rfl⟩
-  | c :: rest, d, t, W, hwf, hdir, hh => by
+  | [], cl, d, t, W, hwf, _, _ => ⟨[], d, t, cl, ByteRun.nil d t, W, hwf, rfl⟩
+  | c :: rest, cl, d, t, W, hwf, hdir, hh => by
     obtain ⟨hc, hok, hnext⟩ := hh
-    obtain ⟨d1, hbo, hs, hW1, hclk⟩ := byte_step W hwf hup env henv fuel c hc ((isDir_iff_dir t).1 hdir)
-    have hnh := modelStep_no_hang (upOf u) d t fuel c hc
-    have hstep := slot_step_spec_step u 70000 t hwf c.op (sfnStamp d.fs d.clock none) hok hnh
-    have hwf1 := (slot_step_refines u 70000 t hwf c.op (sfnStamp d.fs d.clock none) hok).1
+    obtain ⟨d1, cl1, hbo, hs, hW1, hA, hclk⟩ := byte_step W hwf hup env henv fuel c hc ((isDir_iff_dir t).1 hdir)
+    have hnh := modelStep_no_hang (upOf u) cl d t fuel c hc
+    have hstep := slot_step_spec_step u 70000 t hwf c.op (stampOf d c) hok hnh
+    have hwf1 := (slot_step_refines u 70000 t hwf c.op (stampOf d c) hok).1
     have hdir1 : (modelStep (upOf u) d t c).tree.isDir = true := by rw [modelStep_isDir]; exact hdir
-    obtain ⟨obs, d', t', hrun, hW', hwf', hspec⟩ :=
-      history_refines_spec_img_partial u hup env henv cl fuel rest d1 _ hW1 hwf1 hdir1 (hnext d1 hs hclk hW1)
-    refine ⟨_, d', t', ByteRun.cons hbo hrun, hW', hwf', ?_⟩
+    obtain ⟨obs, d', t', cl', hrun, hW', hwf', hspec⟩ :=
+      history_refines_spec_img_partial u hup env henv fuel rest cl1 d1 _ hW1 hwf1 hdir1 (hnext d1 cl1 hs hclk hW1 hA)
+    refine ⟨_, d', t', cl', ByteRun.cons hbo hrun, hW', hwf', ?_⟩
     simp only [specRun]
     have : Spec.step (cfgOf u) (abs t) c.op (obsOf (modelStep (upOf u) d t c)) =
         .ok (abs (modelStep (upOf u) d t c).tree) := hstep
@@ -648,6 +763,79 @@ example : ∃ (h : FileH) (d' : Dev),
       exact room_new)
     (by rw [show sfnStamp dev.fs dev.clock none = stampNew from rfl, model_create.1]; simp)
   exact o2 [] model_create.1
+
+end Ex4
+
+/-! ### non-vacuity: `create_dir("sub/../New dir")` on the image of `Ex4` (the allocator finds cluster 4) -/
+
+namespace Ex4
+open C01tree.Ex SlotTreeImg FatVerif.FileSim FatVerif.Fat
+
+def stampDir : List Nat := sfnStamp dev.fs dev.clock (some 4)
+
+theorem model_mkdir :
+    (createS up0 70000 root4 [] "sub/../New dir" true stampDir).out = .ok [] ∧
+    (abs (createS up0 70000 root4 [] "sub/../New dir" true stampDir).tree).children.map (·.1) =
+      ["sub", "New dir"] := by decide +kernel
+
+theorem walk_back2 : walkDirsS up0 root4 [] (pathParts "sub/../New dir").1 = .ok [] := by decide +kernel
+
+theorem room_dir : DirSlots.findFree rootSlots (numParts (Names.encodeUtf16 "New dir".toList).length + 1) +
+    (numParts (Names.encodeUtf16 "New dir".toList).length + 1) ≤ 16 := by decide +kernel
+
+theorem geo : Geo dev.fs dev.img.size :=
+  ⟨by decide, by decide, by decide, by decide, by decide, by decide, by decide, by decide, by decide, by decide, by decide⟩
+
+theorem fat2 : tabView dev.fs dev.img 2 = .data 3 := by decide +kernel
+theorem fat3 : tabView dev.fs dev.img 3 = .eoc := by decide +kernel
+theorem find4 : allocFindV (tabView dev.fs dev.img) dev.fs.fsInfo.next dev.fs.totalClusters = some 4 := by
+  decide +kernel
+
+theorem chain2 (chain : List Nat) (h : Chain (tabView dev.fs dev.img) 2 chain) : chain = [2, 3] := by
+  cases h with
+  | last _ hl => exact absurd fat2 (hl 3)
+  | cons _ n cs h1 h2 =>
+    rw [fat2] at h1
+    cases h1
+    cases h2 with
+    | last _ _ => rfl
+    | cons _ m _ h3 _ => rw [fat3] at h3; cases h3
+
+/-- **the byte-level `create_dir` on the image**: walks into `sub` and back, allocates cluster 4, writes the two slots
+    of `New dir` into the root region and the dot entries into cluster 4; afterwards the image holds the new slot
+    tree under a cluster map that agrees with `cl` on the old directories -/
+example : ∃ (s : DirStream) (d' : Dev),
+    run (createDir env 30 (rootDirStream dev.fs) "sub/../New dir") dev = (.ok s, d') ∧ VolStep dev d' ∧
+    ∃ cl', ImgTreeW d' up0 (createS up0 70000 root4 [] "sub/../New dir" true stampDir).tree cl' ∧
+      ClAgree up0 root4 cl cl' := by
+  obtain ⟨_, o2⟩ := create_dir_img_partial imgTreeW root4_wf dotSafe env rfl [] _ den_root4 "sub/../New dir" 30
+    (by decide)
+    (fun p hp => by rw [walk_back2] at hp; cases hp; rfl) 4
+    (fun slots ch ht => by
+      rw [root4_eq] at ht
+      simp only [Node.dir.injEq] at ht
+      obtain ⟨rfl, _⟩ := ht
+      have hpp : (pathParts "sub/../New dir").2 = "New dir" := by decide +kernel
+      rw [hpp]
+      refine ⟨geo, ⟨(fun n h => by cases h), (fun n h => by cases h)⟩, by decide, by decide, by decide, by decide, find4,
+        by decide, ?_, ?_⟩
+      · intro N hN
+        have h16 : N = 16 := by
+          have h1 := hN.slots
+          have h2 : (rootSliceOf dev.fs).size = 512 := by decide
+          omega
+        rw [h16]
+        exact room_dir
+      · intro cur s c' hne _ c0 chain hcl hch
+        have h2 : c0 = 2 := by
+          unfold cl at hcl
+          rw [if_neg hne] at hcl
+          cases hcl; rfl
+        subst h2
+        rw [chain2 chain hch]
+        decide)
+    (by rw [show sfnStamp dev.fs dev.clock (some 4) = stampDir from rfl, model_mkdir.1]; simp)
+  exact o2 [] model_mkdir.1
 
 end Ex4
 
